@@ -14,8 +14,11 @@ VERIF = os.path.dirname(os.path.dirname(os.path.abspath(__file__)))
 REPO = os.environ.get("VERIF_REPO", "/repo")
 SPEC = os.path.join(VERIF, "spec")
 HARNESS = os.path.join(VERIF, "harness")
-EVIDENCE = os.path.join(VERIF, "evidence")
-REPLAYS = os.path.join(VERIF, "replays")
+# evidence and replays of /verif belong to runs against /repo itself; runs pointed at another tree
+# (seeded changes in a scratch worktree) write theirs next to that tree
+_ALT = os.environ.get("VERIF_REPO") not in (None, "", "/repo")
+EVIDENCE = os.path.join(VERIF, "evidence") if not _ALT else os.path.join(tempfile.gettempdir(), "verif-alt", "evidence")
+REPLAYS = os.path.join(VERIF, "replays") if not _ALT else os.path.join(tempfile.gettempdir(), "verif-alt", "replays")
 TLA_JAR = "/opt/veriftools/tla/tla2tools.jar"
 TLA_CP = TLA_JAR + ":/opt/veriftools/tla/CommunityModules-deps.jar"
 NCPU = os.cpu_count() or 4
